@@ -128,6 +128,16 @@ def shape_of(flat, use, landing):
             only_classes = kind(t) == K['class']
         if only_classes:
             return 'nested-class-body-sees-enclosing-class-attribute'
+        if kind(s) == K['comp']:
+            # a comprehension in a class body nested (through class bodies only) in the landing class:
+            # the two defects above combined
+            t = par(s)
+            only_classes = kind(t) == K['class']
+            while t != ls and only_classes:
+                t = par(t)
+                only_classes = kind(t) == K['class']
+            if only_classes:
+                return 'comprehension-in-nested-class-body-sees-outer-class-attribute'
         return 'function-sees-enclosing-class-attribute'
     before = any(o[0] == x and o[2] == s and o[1] in (0, 4, 5) for o in occs[:occs[use][3]])
     if kind(s) == K['class'] and binds(s) and not before and not decl(s, 2) and not decl(s, 3) \
@@ -414,6 +424,8 @@ WITNESSES = [
     [B('a'), D('class', 'K', [B('a'), {'k': 'comp', 'var': 'b', 'x': 'a'}])],
     # nested class sees enclosing class attribute
     [B('a'), D('class', 'K', [B('a'), D('class', 'L', [U('a')])])],
+    # ... and a comprehension inside the nested class
+    [B('a'), D('class', 'K', [B('a'), D('class', 'L', [{'k': 'comp', 'var': 'b', 'x': 'a'}])])],
     # method sees ... (class scopes skipped: fine) -- control
     [B('a'), D('class', 'K', [B('a'), D('function', 'f', [U('a')]), {'k': 'call', 'x': 'f', 'n': 0}])],
     # class-body use before class-level binding, enclosing function binds the name
